@@ -248,6 +248,9 @@ func Generate(r *rand.Rand, profile string) *Scenario {
 		if profile == "full" || profile == "closed" || profile == "fifo" {
 			kind = pick(1, 1, 1, 2)
 			t.size = pick(1, 1, 1, 2)
+			if profile == "closed" {
+				t.size = pick(1, 1, 2, 2, 3)
+			}
 		}
 		switch kind {
 		case 1:
@@ -311,6 +314,9 @@ func Generate(r *rand.Rand, profile string) *Scenario {
 		case "full", "closed":
 			if j < nj-2 {
 				runFrac = 1
+				if t.size > t.min && chance(0.5) {
+					runFrac = 0.6 // an elastic job running at or above its minimum with pods still pending
+				}
 			} else {
 				runFrac = 0
 			}
